@@ -329,6 +329,8 @@ class Check:
         ev_path = '%s/%s.json' % (EVID, self.prop)
         main = next((s for s in order if s in self.parts), None)
         if main is None:
+            if self.rc == 1:
+                return  # every substrate ended in a reported violation before it could write statistics
             raise HarnessError('no substrate completed for ' + self.prop)
         ev = json.load(open(self.parts[main][0]))
         cov = ev['coverage']
